@@ -598,6 +598,7 @@ type SchedTask struct {
 	Horizon  int           `json:"horizon"`
 	MaxExec  int           `json:"max_exec"`
 	BudgetS  int           `json:"budget_s"`
+	NotAfter int64         `json:"not_after,omitempty"`
 	Single   bool          `json:"single,omitempty"` // run exactly this schedule (replay)
 }
 
@@ -619,6 +620,11 @@ func vSchedWorker(runOnce func(w *VWorld, sc *SchedScenario, prefix []int, horiz
 		ex := &vsync.Explorer{Bound: t.Bound, MaxExec: t.MaxExec, Stats: vsync.NewStats()}
 		if t.BudgetS > 0 {
 			ex.Deadline = time.Now().Add(time.Duration(t.BudgetS) * time.Second)
+		}
+		if t.NotAfter > 0 {
+			if d := time.Unix(t.NotAfter, 0); ex.Deadline.IsZero() || d.Before(ex.Deadline) {
+				ex.Deadline = d
+			}
 		}
 		var herr string
 		ex.Run = func(prefix []int) *vsync.Execution {
